@@ -73,6 +73,10 @@ class BIPUser(Client):
     def confirmation(self, pdu):
         self.log.append({"at": self.name, "t": CLOCK.now, "token": bytes(pdu.pduData).decode("ascii", "replace"),
                          "src": pdu.pduSource, "dst": pdu.pduDestination})
+        # the real network layer decodes the PDU it is handed in place (NPDU.decode takes the octets out one by one): so does
+        # this stand-in, what the B/IP layer does with the message afterwards must not depend on it
+        if isinstance(pdu.pduData, bytearray):
+            del pdu.pduData[:]
 
     def broadcast(self, token):
         self.request(PDU(token.encode("ascii"), destination=LocalBroadcast()))
